@@ -200,7 +200,7 @@ func poolRun(s *poolScn) *poolObs {
 		select {
 		case <-ch:
 			return true
-		case <-time.After(6 * time.Second):
+		case <-time.After(4 * time.Second):
 			obs.msg = "watchdog: " + what
 			return false
 		}
@@ -237,7 +237,7 @@ func poolRun(s *poolScn) *poolObs {
 			closeN()
 		}
 	case "eos":
-		recv(6 * time.Second)
+		recv(4 * time.Second)
 		closeN()
 	}
 	if s.fault == "stall" && s.closeAt != "req" && s.closeAt != "start" && s.closeAt != "eos" {
@@ -251,16 +251,16 @@ func poolRun(s *poolScn) *poolObs {
 	}
 	if s.late && !have {
 		// nobody receives from Wait(): the client must terminate completely all the same
-		if len(poolWaitNoLib(600*time.Millisecond)) == 0 {
+		if len(poolWaitNoLib(3*time.Second)) == 0 {
 			obs.drained = "1"
 		} else {
 			obs.drained = "0"
 		}
 	}
-	if !have && !recv(6*time.Second) {
+	if !have && !recv(4*time.Second) {
 		obs.result = "hang"
 		cl.Close()
-		recv(2 * time.Second)
+		recv(1 * time.Second)
 		obs.leakTop = poolLibGoroutines()
 		obs.leaked = len(obs.leakTop)
 		return obs
@@ -277,7 +277,7 @@ func poolRun(s *poolScn) *poolObs {
 	case <-time.After(30 * time.Millisecond):
 		obs.once = 1
 	}
-	obs.leakTop = poolWaitNoLib(250 * time.Millisecond)
+	obs.leakTop = poolWaitNoLib(1500 * time.Millisecond)
 	obs.leaked = len(obs.leakTop)
 	// Close after the error has been yielded: any number of times, no effect
 	cl.Close()
